@@ -7,8 +7,34 @@ use crate::core::*;
 use crate::erpki::*;
 use crate::escen::*;
 
+
+/// In a third of the scenarios an ancestor announces, in a ROA of its own, the address space it
+/// delegated to one of its descendants. Such payload overlaps the resources of another CA: when that
+/// CA's publication point is rejected, only the unsafe-vrps policy `reject` may remove it.
+pub fn with_overlapping_roa(mut sc: Scenario, words: &[u16]) -> Scenario {
+    let mut d = D::new(words);
+    for _ in 0..23 {
+        d.next();
+    }
+    if !d.chance(1, 3) {
+        return sc;
+    }
+    let non_roots: Vec<usize> = (0..sc.cas.len()).filter(|i| sc.cas[*i].parent.is_some()).collect();
+    if non_roots.is_empty() {
+        return sc;
+    }
+    let x = non_roots[d.below(non_roots.len())];
+    let anc = if d.chance(1, 2) { root_of(&sc, x) } else { sc.cas[x].parent.unwrap() };
+    let r = own_res(x);
+    let prefixes: Vec<(std::net::IpAddr, u8, Option<u8>)> = vec![(std::net::IpAddr::V4(r.v4[0].0), r.v4[0].1, None), (std::net::IpAddr::V6(r.v6[0].0), r.v6[0].1, Some(56))];
+    for v in sc.cas[anc].versions.iter_mut() {
+        v.objs.push(Obj { kind: ObjKind::RoaRaw { asn: 64990, prefixes: prefixes.clone() }, not_after: 86400 * 30, fault: None });
+    }
+    sc
+}
+
 pub fn run(ctx: &Ctx, rep: &mut Report, replay: Option<&serde_json::Value>) {
-    rep.rule("same E-rpki single-run scenarios as C01, completeness direction: every item of every valid, enabled object under an accepted chain (minus documented filters: prefix-length limits, unsafe-VRP reject, disabled BGPsec/ASPA) must be served; non-trivial = >=1 fault and >=1 valid payload item elsewhere; distinct by serialised scenario");
+    rep.rule("same E-rpki single-run scenarios as C01, completeness direction: every item of every valid, enabled object under an accepted chain (minus documented filters: prefix-length limits, unsafe-VRP reject, disabled BGPsec/ASPA) must be served; in a third of the scenarios an ancestor's ROA announces a descendant's delegated space (payload overlapping another CA's resources: removed only under unsafe-vrps reject when that CA is rejected); non-trivial = >=1 fault and >=1 valid payload item elsewhere; distinct by serialised scenario");
     rep.assume("reference model Appendix A; see C01");
     let profile = Profile::default();
     ctx.shrink_iters.store(150, std::sync::atomic::Ordering::Relaxed);
@@ -24,7 +50,12 @@ pub fn run(ctx: &Ctx, rep: &mut Report, replay: Option<&serde_json::Value>) {
     let p = profile.clone();
     run_prop_par(ctx, rep, "single", ctx.tier.pick(320, 8000), 16, || genome(160).prop_map({
         let p = p.clone();
-        move |w| single_run(&w, &p)
-    }), |sc, i| judge_scenario("C02", sc, i, false, true));
+        move |w| with_overlapping_roa(single_run(&w, &p), &w)
+    }), |sc, i| {
+        if sc.cas.iter().any(|c| c.versions.iter().any(|v| v.objs.iter().any(|o| matches!(o.kind, ObjKind::RoaRaw { asn: 64990, .. })))) {
+            i.class("ancestor_roa_overlaps_descendant");
+        }
+        judge_scenario("C02", sc, i, false, true)
+    });
     crate::c01::run_rrdp_single(ctx, rep, "C02/rrdp", false, true);
 }
